@@ -153,6 +153,7 @@ func init() {
 			func(s *e1.Stats) bool { return marks(s, "sessions:coinciding-entity-ids") })
 		partNoninterference(c, a, c.Pick(64, 640))
 		reproDeferredCrossing(c, a)
+		partIntegrityStorm(c, a)
 		return a.finish(c)
 	}
 	registry["C17"] = checkC17
